@@ -110,6 +110,8 @@ Definition chk_run (fault : option (istep * err)) (calls : list istep) (e : run_
 (* the request of a single-call command, computed from call_specs + the regenerated operation
    content (Model.CliApi.cli_request), against the request the tool really sent *)
 Definition chk_cli_request (name : string) (args : list string) (obs : option request) : bool :=
+  if negb (cli_translated call_specs name) then true      (* downgraded in this run: decided by the oracle *)
+  else
   match cli_request call_specs name args, obs with
   | Some a, Some b => N.eqb (q_netfn a) (q_netfn b) && N.eqb (q_cmd a) (q_cmd b) && N.eqb (q_lun a) (q_lun b)
                       && bytes_eqb (q_data a) (q_data b)
